@@ -64,7 +64,7 @@ def build_harness():
     log(f"[build] harness built against /repo working tree in {time.time()-t:.1f}s")
 
 
-def tlc(ctx, cfg, module, workers=12, timeout=900, simulate=None, depth=None, env=None, count=True, extra_args=None, jvm=None, allow_fail=False):
+def tlc(ctx, cfg, module, workers=12, timeout=900, simulate=None, depth=None, env=None, count=True, extra_args=None, jvm=None, allow_fail=False, coverage=False):
     """Run TLC; returns dict(out=path, states=distinct, generated=..., ok=bool, text_tail=str)."""
     name = os.path.splitext(os.path.basename(cfg))[0]
     uid = next(_COUNTER)           # unique also when several TLC processes are started from threads
@@ -79,6 +79,8 @@ def tlc(ctx, cfg, module, workers=12, timeout=900, simulate=None, depth=None, en
         cmd += ["-simulate", f"num={simulate}", "-depth", str(depth or 100), "-seed", str(ctx.seed)]
     if extra_args:
         cmd += extra_args
+    if coverage:
+        cmd += ["-coverage", "1"]
     e = dict(os.environ)
     e.setdefault("JAVA_TOOL_OPTIONS", "-Xss1g")
     if env:
@@ -111,8 +113,20 @@ def tlc(ctx, cfg, module, workers=12, timeout=900, simulate=None, depth=None, en
             if line.startswith("Error:") or "is violated" in line or "Parsing or semantic analysis failed" in line:
                 errors.append(line.strip())
     ok = rc == 0 and not errors
+    never_fired = []
+    if coverage and ok:
+        # vacuity guard: TLC reports, per top-level disjunct of the next-state relation, distinct:total states
+        last = {}
+        with open(out, errors="replace") as fh:
+            for line in fh:
+                m = re.match(r"^<(\w+) line (\d+), col \d+ to line \d+, col \d+ of module (\w+)( \([\d ]+\))?>: (\d+):(\d+)", line)
+                if m:
+                    last[(m.group(1), m.group(3), m.group(4) or "")] = int(m.group(6))
+        never_fired = [f"{k[0]}{k[2]} of {k[1]}" for k, n in last.items() if n == 0]
     run = dict(cfg=os.path.relpath(cfg, SPEC) if os.path.isabs(cfg) else cfg, module=module, distinct_states=distinct, states_generated=generated,
                depth=depth_found, wall_s=round(wall, 2), ok=ok, mode="simulate" if simulate else "exhaustive")
+    if coverage:
+        run["actions_never_fired"] = never_fired
     ctx.tlc_runs.append(run)
     if count:
         ctx.states += distinct
@@ -120,6 +134,8 @@ def tlc(ctx, cfg, module, workers=12, timeout=900, simulate=None, depth=None, en
     if simulate:
         ctx.exhaustive = False
     log(f"[tlc] {cfg}: {distinct} distinct states, {generated} generated, {wall:.1f}s, ok={ok}")
+    if never_fired and not allow_fail:
+        raise ToolError(f"vacuity: these disjuncts of the next-state relation never fired in {cfg}: {never_fired}")
     if not ok and not allow_fail:
         raise ToolError(f"TLC reported an error on {cfg} (a specification-level failure is a tool error, the spec does not depend on the code): {errors[:3]}  see {out}")
     return dict(out=out, states=distinct, generated=generated, ok=ok, errors=errors, wall=wall)
@@ -241,6 +257,20 @@ def algo_drift(ctx, runs):
         ctx.traces += s.get("cases", 0)
 
 
+def tlaps(ctx, module):
+    """unbounded companion proofs (spec/proofs/*.tla) checked by the TLA+ proof system"""
+    t = time.time()
+    try:
+        r = subprocess.run(["tlapm", "--threads", "8", module], cwd=os.path.join(SPEC, "proofs"), stdout=subprocess.PIPE, stderr=subprocess.STDOUT, text=True, timeout=1200)
+    except subprocess.TimeoutExpired:
+        raise ToolError(f"tlapm timed out on {module}")
+    m = re.search(r"All (\d+) obligations? proved", r.stdout)
+    if r.returncode != 0 or not m:
+        raise ToolError(f"tlapm did not prove {module}: {r.stdout[-600:]}")
+    ctx.extra.setdefault("tlaps", []).append({"module": "spec/proofs/" + module, "obligations": int(m.group(1)), "discharged": int(m.group(1)), "wall_s": round(time.time() - t, 1)})
+    log(f"[tlaps] {module}: all {m.group(1)} obligations proved ({time.time()-t:.1f}s)")
+
+
 def load_known():
     p = os.path.join(VERIF, "known_findings.json")
     if not os.path.exists(p):
@@ -340,7 +370,7 @@ def check_C01(ctx):
     outs = []
     r = tlc(ctx, "mc/MC_Connect3free.cfg", "mc/MC_Connect.tla")
     outs.append(r["out"])
-    r = tlc(ctx, "mc/MC_Connect4.cfg", "mc/MC_Connect.tla")
+    r = tlc(ctx, "mc/MC_Connect4.cfg", "mc/MC_Connect.tla", coverage=not ctx.quick)
     outs.append(r["out"])
     if not ctx.quick:
         r = tlc(ctx, "mc/MC_Connect5.cfg", "mc/MC_Connect.tla", workers=14, timeout=3000)
@@ -374,9 +404,10 @@ def check_C02(ctx):
     if ctx.quick:
         tlc(ctx, "mc/MC_Annot3q.cfg", "mc/MC_Annot.tla")
     else:
-        tlc(ctx, "mc/MC_Annot3.cfg", "mc/MC_Annot.tla", workers=14, timeout=1800)
+        tlc(ctx, "mc/MC_Annot3.cfg", "mc/MC_Annot.tla", workers=14, timeout=1800, coverage=True)
         tlc(ctx, "mc/MC_Annot4.cfg", "mc/MC_Annot.tla", workers=14, timeout=1800)
     tlc(ctx, "mc/MC_AnnotLive.cfg", "mc/MC_Annot.tla", workers=4)
+    tlaps(ctx, "LinkInduction.tla")      # unbounded: abstract Annotate preserves LinkExact; LinkExact => UpClosed
     outs = [tlc(ctx, "mc/MC_AnnotHist3.cfg", "mc/MC_AnnotHist.tla")["out"]]
     if not ctx.quick:
         outs.append(tlc(ctx, "mc/MC_AnnotHist4.cfg", "mc/MC_AnnotHist.tla", workers=14, timeout=1800)["out"])
@@ -396,7 +427,7 @@ def check_C03(ctx):
                 "record universes differ per kind (3 genes, 2 OMIM, 1 ORPHA) and include records without terms, N=0, n=0, n=N; the harness "
                 "evaluates -ln(n/N) in f64 and compares with information_content() through every construction path; "
                 "non-trivial = at least one fact")
-    tlc(ctx, "mc/MC_CoreIC.cfg", "mc/MC_CoreIC.tla")
+    tlc(ctx, "mc/MC_CoreIC.cfg", "mc/MC_CoreIC.tla", coverage=not ctx.quick)
     outs = [tlc(ctx, "mc/MC_AnnotHistIC.cfg" if ctx.quick else "mc/MC_AnnotHistIC3.cfg", "mc/MC_AnnotHist.tla", workers=14, timeout=1800)["out"]]
     # every kind starts with a term-less record: n/N < 1 for every linked term, so a missed link changes the value
     outs.append(tlc(ctx, "mc/MC_AnnotHistICP.cfg", "mc/MC_AnnotHist.tla", workers=14, timeout=1800)["out"])
@@ -519,6 +550,9 @@ def check_C07(ctx):
     co = tlc(ctx, "mc/MC_CompareQuick.cfg" if ctx.quick else "mc/MC_Compare.cfg", "mc/MC_Compare.tla", workers=14)["out"]
     cs = hv(ctx, "replay-compare", **{"in": co})
     ctx.extra["extra_compare_pairs"] = cs.get("cases", 0)
+    so = tlc(ctx, "mc/MC_SetMeta.cfg", "mc/MC_SetMeta.tla", workers=4)["out"]
+    ss = hv(ctx, "replay-setmeta", **{"in": so})
+    ctx.extra["extra_setmeta_queries"] = ss.get("evaluations", 0)
     ctx.assumptions += ["replacement id 0 is excluded: the layout reserves 0 for 'no replacement'",
                         "ontologies must contain HP:0000001 and HP:0000118 (from_bytes applies the default categories)"]
     return finish(ctx)
@@ -558,6 +592,7 @@ def check_C10(ctx):
                 "EVERY id of 0..10^7+16 and the top 65536 ids of u32 (thorough: the entire u32 space on some); name lookups: every assignment of 6 names over a 2-letter alphabet to 3 diseases/genes "
                 "(duplicates, empty name) x every query of length <=3, rendered in ASCII and multi-byte alphabets; non-trivial = at least 2 terms present / any name line")
     outs = [tlc(ctx, "mc/MC_Lookup.cfg", "mc/MC_Lookup.tla")["out"], tlc(ctx, "mc/MC_Names.cfg", "mc/MC_Names.tla")["out"]]
+    tlaps(ctx, "ArenaInduction.tla")     # unbounded: the arena invariant is inductive for any table size; Get is exact
     allout = concat(ctx, outs, "c10-lines.txt")
     s = hv(ctx, "replay-lookup", prop="C10", **{"in": allout}, sweep_every=(40 if ctx.quick else 4), full_u32=(0 if ctx.quick else 1))
     ctx.traces += s.get("cases", 0)
